@@ -317,7 +317,8 @@ def eval_case(case, seed, thorough):
         _l3, l4, _end, _pr, _v6 = ns.locate(items[vall[0]].frame)
         hl = 8 if victim.kind == "quic" else 20
         snaps = sorted({14, _l3, _l3 + 1, _l3 + 9, l4 - 1, l4, l4 + 4, l4 + hl - 1, l4 + hl, l4 + hl + 1, l4 + hl + 5, l4 + hl + 6, l4 + hl + 11, l4 + hl + 40, 96, 128, 200, 256, 512, 1024})
-        for sn in snaps if thorough else sorted(frng.sample(snaps, 8)):
+        link = sorted({0, 13, 14, 15, max(0, _l3 - 3), _l3 - 1})      # inside the link-layer header (Ethernet, VLAN tags)
+        for sn in sorted(set(snaps) | set(link)) if thorough else sorted(set(frng.sample(snaps, 7)) | set(frng.sample(link, 2))):
             its = [scene.Item(it.frame[:sn], conn=it.conn, dir=it.dir, ts=it.ts, seg=it.seg, tag=it.tag) if it.conn == 0 else it for it in items]
             faults.append((f"victim's packets captured with snap length {sn} (transport header at octet {l4})", its, keys, [], "ab"))
     elif kind == "cbc-pad":
